@@ -104,8 +104,8 @@ chk("C02",
 chk("C03",
     "Props/C03.lean: the concatenation wire formats of keys (all nine schemes) and tokens (seven schemes) are modelled (Model/Schemes/Wire.lean): "
     "deserialize(serialize(x)) = x whenever the fields have the configured widths, any other total length is refused, a successful parse returns "
-    "exactly what was sent cut at the configured widths; generated keys and the tokens used by a successful search provably have those widths "
-    "(PiBas/PiPack, every accepted configuration, via the HMAC P_hash length theorem of C16). Search in the models is a function of the "
+    "exactly what was sent cut at the configured widths; generated keys of all nine schemes and the tokens of PiBas/PiPack (as used by a successful search), CT14 and ANSS16 provably have those widths "
+    "(every accepted configuration, via the HMAC P_hash length theorem of C16 and the split-length theorem of C17; ANSS16.key_roundtrip pins the width repaired by 0c28862). Search in the models is a function of the "
     "deserialized objects only, so equal objects give equal results. Tie: the scheme correspondence (all nine schemes) + the direct oracle on "
     "the real code: a FRESH scheme instance from the JSON round trip of the configuration, key / index / token / result deserialized from "
     "bytes, every stored and adversarially close absent keyword searched through the split and compared with DB.get(w), then a second session "
@@ -128,7 +128,11 @@ chk("C04",
 chk("C05",
     "Props/C05.lean: for the counter-chain schemes the multiset of (label length, value length) of the stored table is a function of the "
     "configuration and the chunk lengths only; for PiBas it is N copies of one pair, so two databases with the same number of postings give "
-    "identically shaped indexes whatever their keywords, contents and list-length distributions (shape_indistinguishable). Other schemes: the "
+    "identically shaped indexes whatever their keywords, contents and list-length distributions (shape_indistinguishable); likewise PiPack for equal block counts. "
+    "SSE1.shape: array length, every cell length, table size and every entry length are functions of the CONFIGURATION only. CT14.shape / ANSS16.shape: the whole index - "
+    "number of level tables, entries per table (2^(t-j) resp. 2^(t+1-j) and 2^t for HT(S)), every label and value length - is a function of t = ceil(log2 N) only, for every database, key "
+    "and tape; the proofs contain the capacity bounds the padding relies on (at most one chunk of 2^j <= |DB(w)| per keyword and level; a list kept at level j has more than 2^j/2 entries), "
+    "the second being what commit f3c43f7 repaired. Hypotheses (identifier size, dummy keywords fresh, labels distinct) are evaluated by the driver on every recorded run. Remaining schemes (SSE2, PiPtr, Pi2Lev, DP17): the "
     "correspondence reproduces every cell INCLUDING padding cells (count and lengths) from the recorded draws, and the direct oracle builds, for "
     "every generated database, a second valid database with the same public size parameter (SSE1: none; SSE2/PiBas/DP17: N; PiPack: blocks; "
     "PiPtr: (blocks, pointer blocks); Pi2Lev: (keywords, array length); CT14/ANSS16: ceil(log2 N)) but other contents and list lengths, compares "
@@ -223,7 +227,7 @@ chk("C11",
     "each run with a client object freshly loaded from disk as commands.py does: the interpreter refines an explicit 3-shape table (runCmd_world); "
     "hence a command is accepted exactly when the 5-flag reference of frontend/README.md accepts it and the persisted flag word follows the reference; "
     "a refused command leaves the client's folder and the server's durable state unchanged; a key file once written never changes; once the index "
-    "is uploaded every later search is answered by the index built under the key on disk with a token of that key, forever; an invalid configuration "
+    "is uploaded every later search is answered by the index built under the key on disk with a token of that key, forever; the command layer (commands.py + service_name_handler.py, hand-written Model/Commands.lean tied by correspondence over adversarially close names): a create under a taken name or with an unusable configuration changes nothing, names are write-once and exact over any history; an invalid configuration "
     "changes nothing; no history yields a wrong result. Tie: translator + executing ALL command sequences up to length 3 (quick) / 4 (thorough) over "
     "8 commands (valid / invalid-by-value / invalid-by-omission create, key, encrypt, upload config, upload index, search) plus random longer "
     "histories with the REAL client Service against the REAL server over a loopback websocket, comparing outcome, flag word, key file content, index "
